@@ -50,6 +50,7 @@ func Load(path string) (*Replay, error) {
 		return nil, err
 	}
 	cur, pos, Violations, Covers = r, 0, nil, nil
+	lastModelNow = -1
 	return r, nil
 }
 
@@ -272,3 +273,16 @@ func SSTCuts(on bool) {}
 
 // YieldAtDB has no native twin: the Go scheduler cannot be steered.
 func YieldAtDB(on bool) {}
+
+// TempFile writes content to a fresh temporary file and returns its name.
+func TempFile(content string) string {
+	f, err := os.CreateTemp("", "vh-*")
+	if err != nil {
+		panic(err)
+	}
+	defer f.Close()
+	if _, err := f.WriteString(content); err != nil {
+		panic(err)
+	}
+	return f.Name()
+}
